@@ -15,7 +15,7 @@ ANCHORS = ['mpilot/libraries/eems/fuzzy.py:FuzzyOr.execute', 'mpilot/libraries/e
 LEVEL = "exploration"
 RULE = ("operator x parameter x input-order x layout cases; n<=3 inputs enumerate the complete 18^n value/missing lattice as "
         "array cells (rank 2-3 shapes also with inputs in Fortran-order / strided / negative-stride memory), n=4,5 sample cell tuples; a case is distinct by (operator, n, params, layout rank, order class)")
-REQUIRED_COUNTERS = ["command_object_input_calls", "ref_postconditions", "law_checks", "cells_compared", "repeated_field_cases", "mixed_dtype_cases", "saturated_field_cases", "memory_layout_cases", "plain_ndarray_cases", "large_rasters_checked", "real_producer_cases", "program_copies_checked"]
+REQUIRED_COUNTERS = ["direct_execute_calls", "command_object_input_calls", "ref_postconditions", "law_checks", "cells_compared", "repeated_field_cases", "mixed_dtype_cases", "saturated_field_cases", "memory_layout_cases", "plain_ndarray_cases", "large_rasters_checked", "real_producer_cases", "program_copies_checked"]
 EXHAUSTIVE_NOTE = "complete {17 fuzzy values + missing}^n lattice for n = 1, 2, 3 in both tiers"
 ASSUMPTIONS = ["reference models in mpv/ref.py (exact rationals) are the EEMS definitions as stated in the property",
                "numpy masked-array primitives are trusted", "FuzzyXOr with one input, k outside 1..n and zero weight sums are don't-care"]
@@ -326,6 +326,18 @@ def run_case(ctx, case):
         ctx.fail("%s:%s:%s:%s" % (op, kind, nclass, rk),
                  {"cell_inputs": [c[i] for c in ocols] if i is not None else None, "got": g, "want": w, "params": oparams, "shape": list(shape)}, small)
         return
+    if not refs and (total + n + len(op)) % 3 == 0:
+        # the operator driven the way the repository's tests drive it (execute() on stand-in producers), the fields given as a
+        # tuple / an iterator / a generator: the same result
+        for seq in ("tuple", "iter", "gen", None):
+            dout, _ = arr.run_direct(op, inputs, call_params, fuzzy_inputs=True, seq=seq)
+            ctx.count("direct_execute_calls")
+            if not dout.ok:
+                ctx.fail("%s:direct-execute-raises-%s:%s" % (op, type(dout.exc).__name__, "fields-as-" + str(seq)), {"error": repr(dout.exc)[:200], "n": n})
+                return
+            if arr.digest(numpy.ma.asarray(dout.value)) != arr.digest(numpy.ma.asarray(res)):
+                ctx.fail("%s:direct-execute-differs:fields-as-%s" % (op, seq), {"n": n, "params": oparams, "got": arr.describe(dout.value, 8), "want": arr.describe(res, 8)})
+                return
     if len(ctx.samples) < 3 and case["kind"] == "lattice" and n == 2:
         ctx.sample({"case": {k: v for k, v in case.items()}, "cells": total, "first_cells": [[c[j] for c in ocols] for j in (0, 17, 100)],
                     "results": [arr.cells(res)[j] for j in (0, 17, 100)]})
